@@ -1,5 +1,5 @@
 from pyvc import runner
-from bounded import keyring, keyring_step
+from bounded import keyring, keyring_step, keyring_subkeys
 from contracts import keyring as kr
 
 PID = 'C19'
@@ -12,11 +12,11 @@ def items():
 
 def run(tier='quick', seed=0, only=None):
     its = [i for i in items() if not only or only in i.cid]
-    return runner.run_property(PID, its, bounded=[] if only else [keyring.component, keyring_step.component], tier=tier, seed=seed, level='exploration',
+    return runner.run_property(PID, its, bounded=[] if only else [keyring.component, keyring_step.component, keyring_subkeys.component], tier=tier, seed=seed, level='exploration',
                                trusted_base=['the class invariant I(keyring) stated in bounded/keyring.py and bounded/keyring_step.py', 'CPython'],
                                assumptions=['bounded stand-ins only for the index itself: the layered alias index (deque of dicts, re-sorted per alias) needs '
                                             'quantified array-of-map invariants that the VC generator does not offer',
-                                            'keyring-histories: nothing is claimed beyond the enumerated histories',
+                                            'keyring-histories, keyring-histories-with-subkey-objects: nothing is claimed beyond the enumerated histories',
                                             'keyring-invariant-is-inductive: the invariant is checked to be preserved by load/unload from EVERY state of a '
                                             'bounded shape (not only reachable ones), so history length is unbounded there but the shape (universe of 6 key '
                                             'objects, layer arrangements) is not; natively executed, not a proof'],
